@@ -359,7 +359,7 @@ def canon_sub(base, idx):
         return canon_col(base, idx[1][1])
     # list(zip(A, B))[i] / zip(A, B)[i]  ->  (A[i], B[i])
     zt = base[2][0] if (base[0] == "call" and base[1] == G("list") and len(base[2]) == 1 and not base[3]) else base
-    if zt[0] == "call" and zt[1] == G("zip") and not zt[3] and zt[2] and not is_slice(idx) and idx[0] != "tuple" and not any(a[0] == "star" for a in zt[2]):
+    if zt[0] == "call" and zt[1] == G("zip") and not [k_ for k_ in zt[3] if k_[0] != "strict"] and zt[2] and not is_slice(idx) and idx[0] != "tuple" and not any(a[0] == "star" for a in zt[2]):
         return ("tuple", tuple(canon_sub(a, idx) for a in zt[2]))
     # [f(d) for d in range(n)][k]  ->  f(k)
     if (base[0] == "comp" and base[1] == "list" and base[5] == () and base[4][0] == "call"
@@ -1031,7 +1031,7 @@ class TermBuilder:
             for p in path[1:]:
                 t = canon_item(t, p)
             return t
-        if it[0] == "call" and it[1] == G("zip") and not path and it[2] and not it[3]:
+        if it[0] == "call" and it[1] == G("zip") and not path and it[2] and not [k_ for k_ in it[3] if k_[0] != "strict"]:
             # the whole element of a zip: the tuple of the zipped sequences' elements
             idx = ("idx", lid, "zip")
             return ("tuple", tuple(canon_sub(a_, idx) for a_ in it[2]))
